@@ -148,7 +148,7 @@ def blank_for(case):
     return None
 
 
-def observe(r, scale, blank=None):
+def observe(r, scale, blank=None, kindless=False):
     """canonical observation of a result object.
     scale: integer factor that makes every exact value an integer, or None (values not reported).
     blank: expected-mask bits over the expected leading shape (positions not compared), or None"""
@@ -161,6 +161,8 @@ def observe(r, scale, blank=None):
     denom = [int(x) for x in r._denom_]
     head = [type(r).__name__, kind_of(r._values_), lead, numer, denom]
     if scale is None:
+        if kindless:
+            head[1] = '-'
         return head + ['-']
     item = numer + denom
     vals = np.broadcast_to(np.asarray(r._values_), tuple(lead + item)).reshape(prod(lead), prod(item))
